@@ -272,10 +272,18 @@ theorem framed_session (cap : Nat) : ∀ (evs : List PollEv) (c : ConnSt Bytes),
 
 /-! ### the WebSocket loop -/
 
-/-- no message is lost, duplicated or reordered by the loop, for every schedule (legal or not) -/
+/-- the user-visible payloads of a list of WebSocket messages (control messages carry none) -/
+def binaries (ms : List WsMsg) : List Bytes := ms.filterMap id
+
+theorem binaries_append (a b : List WsMsg) : binaries (a ++ b) = binaries a ++ binaries b := by
+  simp [binaries, List.filterMap_append]
+
+/-- no message is lost, duplicated or reordered by the loop, for every schedule (legal or not): what
+was handed to the user followed by the payloads still waiting is what the payloads of everything that
+arrived -/
 theorem wsReceive_order : ∀ (fuel : Nat) (c : WsConn) (sched : List WsAns),
-    (wsReceive c sched fuel).outs ++ (wsReceive c sched fuel).conn.buf ++ (wsReceive c sched fuel).conn.sock
-      = c.buf ++ c.sock := by
+    (wsReceive c sched fuel).outs ++ binaries ((wsReceive c sched fuel).conn.buf ++ (wsReceive c sched fuel).conn.sock)
+      = binaries (c.buf ++ c.sock) := by
   intro fuel
   induction fuel with
   | zero => intro c sched; simp [wsReceive]
@@ -284,8 +292,13 @@ theorem wsReceive_order : ∀ (fuel : Nat) (c : WsConn) (sched : List WsAns),
     cases hb : c.buf with
     | cons m ms =>
       have := ih { c with buf := ms } sched
-      simp only [wsReceive, hb, List.cons_append] at this ⊢
-      rw [this]
+      cases m with
+      | some data =>
+        simp only [wsReceive, hb, List.cons_append] at this ⊢
+        rw [this]; simp [binaries]
+      | none =>
+        simp only [wsReceive, hb, List.cons_append] at this ⊢
+        rw [this]; simp [binaries]
     | nil =>
       cases sched with
       | nil => simp [wsReceive, hb]
@@ -299,8 +312,19 @@ theorem wsReceive_order : ∀ (fuel : Nat) (c : WsConn) (sched : List WsAns),
           | nil => simp [hb]
           | cons m ms =>
             have := ih { sock := c.sock.drop (max 1 (min k c.sock.length)), buf := ms } as
-            simp only [List.cons_append, List.nil_append] at this ⊢
-            rw [this, ← List.cons_append, ← ht, List.take_append_drop]
+            have hsplit : c.sock = (m :: ms) ++ c.sock.drop (max 1 (min k c.sock.length)) := by
+              rw [← ht, List.take_append_drop]
+            cases m with
+            | some data =>
+              simp only [List.cons_append, List.nil_append] at this ⊢
+              rw [this]
+              conv => rhs; rw [hsplit]
+              simp [binaries]
+            | none =>
+              simp only [List.nil_append] at this ⊢
+              rw [this]
+              conv => rhs; rw [hsplit]
+              simp [binaries]
 
 /-- `WaitNextEvent` means nothing deliverable is left anywhere: neither on the socket nor inside
 the codec's buffer -/
@@ -315,8 +339,8 @@ theorem wsReceive_drains : ∀ (fuel : Nat) (c : WsConn) (sched : List WsAns),
     intro c sched hl h
     cases hb : c.buf with
     | cons m ms =>
-      simp only [wsReceive, hb] at h ⊢
-      exact ih { c with buf := ms } sched (by simpa using hl) h
+      cases m <;> simp only [wsReceive, hb] at h ⊢ <;>
+        exact ih { c with buf := ms } sched (by simpa using hl) h
     | nil =>
       cases sched with
       | nil => simp [wsReceive, hb] at h
@@ -334,7 +358,7 @@ theorem wsReceive_drains : ∀ (fuel : Nat) (c : WsConn) (sched : List WsAns),
           cases ht : c.sock.take k with
           | nil => simp [ht] at h
           | cons m ms =>
-            simp only [ht] at h ⊢
-            exact ih { sock := c.sock.drop k, buf := ms } as (by simpa using h3) h
+            cases m <;> simp only [ht] at h ⊢ <;>
+              exact ih { sock := c.sock.drop k, buf := ms } as (by simpa using h3) h
 
 end Mio.Stream
